@@ -114,14 +114,23 @@ def one_case(seed, idx):
     try:
         for name, snippet, off in all_bad:
             pos = r.choice(points)
-            placement = r.choice(["main", "included", "after-include"])
+            placement = r.choice(["main", "included", "after-include", "first-lines"])
             new_lines = lines[:pos] + snippet + lines[pos:]
+            if r.random() < 0.3 and pos > 1:
+                # a text line holding a character that str.splitlines() - but not the compiler's split("\n") - treats as a line end
+                k_ = r.randrange(1, pos)
+                if new_lines[k_].strip() and not new_lines[k_].lstrip().startswith(("::", "@", "+", "*", "~", "<<", "->", "#")):
+                    new_lines = new_lines[:k_] + [new_lines[k_] + r.choice(["\x0c", "\u2028", "\x85", "\x1c", "\x0b"]) + "more"] + new_lines[k_ + 1:]
             main = os.path.join(d, "main.bard")
             inc = os.path.join(d, "parts", "inc.bard")
             os.makedirs(os.path.dirname(inc), exist_ok=True)
             if placement == "main":
                 files = {main: new_lines}
                 exp_file, exp_line = main, pos + off + 1
+            elif placement == "first-lines":
+                # the main file's first line is the @include, the construct stands on the first line(s) of the included file
+                files = {main: ["@include parts/inc.bard"] + lines, inc: snippet + ["", ":: Inc_Part", "text"]}
+                exp_file, exp_line = inc, off + 1
             else:
                 # split the story: lines[a:b] live in the included file
                 cut_a = r.choice([p for p in points if p <= pos] or [pos])
